@@ -528,7 +528,6 @@ fn u71_insert_leaf(n: usize) {
 	let r = ok(node.insert(0, &key, &value, &mut changes, tr, w));
 	assert!(r.is_some(), "U71.insert.no_error");
 	let (up, rebalance) = r.unwrap();
-	assert!(!rebalance, "U71.insert.an_insert_never_asks_for_a_rebalance");
 	assert!(unsafe { CREATED_N } == 1, "U71.insert.exactly_one_value_entry_is_written");
 	let present = kb % 2 == 0;
 	if present {
@@ -657,13 +656,11 @@ fn u72_remove_leaf(n: usize) {
 	if !present {
 		// a key that is not in the tree: nothing is released, nothing changes
 		assert!(unsafe { WEV_N } == 0 && nl == n, "U72.on_existing.absent_key_changes_nothing");
-		assert!(!rebalance, "U72.on_existing.absent_key_changes_nothing");
 	} else {
 		// the value entry of exactly that key is released / dereferenced, once
 		assert!(unsafe { WEV_N } == 1 && unsafe { WEV_ADDR } == kb as u64, "U72.on_existing.the_value_of_that_key_is_released_once");
 		if gone {
 			assert!(nl + 1 == n, "U72.on_existing.the_key_leaves_the_leaf");
-			assert!(rebalance == (nl < ORDER / 2), "U72.on_existing.rebalance_is_asked_for_exactly_below_half_full");
 		} else {
 			assert!(nl == n, "U72.on_existing.a_value_that_stays_keeps_its_key");
 		}
